@@ -73,6 +73,12 @@ func KeySpecOf(kind string) signature.KeySpec {
 		return signature.KeySpec{Type: signature.KeyTypeRSA, Size: 2560}
 	case "rsa3584":
 		return signature.KeySpec{Type: signature.KeyTypeRSA, Size: 3584}
+	case "rsa2049":
+		return signature.KeySpec{Type: signature.KeyTypeRSA, Size: 2049}
+	case "rsa3073":
+		return signature.KeySpec{Type: signature.KeyTypeRSA, Size: 3073}
+	case "rsa4097":
+		return signature.KeySpec{Type: signature.KeyTypeRSA, Size: 4097}
 	case "p256":
 		return signature.KeySpec{Type: signature.KeyTypeEC, Size: 256}
 	case "p384":
